@@ -1,6 +1,8 @@
-"""Run a check against a scratch copy of the repository with one textual mutation applied (self-test of the machinery).
+"""Run checks against a scratch copy of the repository with a mutation applied (self-test of the machinery).
 
 usage: python3-vt -m pyvc.mutate <prop> <relative file> <old text> <new text> [check args...]
+       python3-vt -m pyvc.mutate --patch <patch.diff> <prop> [<prop> ...]
+The scratch copy lives in a mkdtemp directory and is removed afterwards; /repo is never touched.
 """
 import os
 import shutil
@@ -8,27 +10,58 @@ import subprocess
 import sys
 import tempfile
 
+ROOT = os.path.dirname(os.path.dirname(os.path.abspath(__file__)))
 
-def run_mutant(prop, rel, old, new, extra=(), quiet=False):
+
+def scratch_copy():
     d = tempfile.mkdtemp(prefix='pyvc_mut_')
+    for sub in ('rsocket', 'reactivestreams'):
+        shutil.copytree(os.path.join('/repo', sub), os.path.join(d, sub), ignore=shutil.ignore_patterns('__pycache__'))
+    return d
+
+
+def run_check(prop, d, extra=()):
+    env = dict(os.environ, PYVC_REPO=d)
+    r = subprocess.run([sys.executable, '-m', 'pyvc.check', prop, '--no-evidence'] + list(extra),
+                       capture_output=True, text=True, env=env, cwd=ROOT)
+    return r.returncode, r.stdout + r.stderr
+
+
+def run_mutant(prop, rel, old, new, extra=()):
+    d = scratch_copy()
     try:
-        for sub in ('rsocket', 'reactivestreams'):
-            shutil.copytree(os.path.join('/repo', sub), os.path.join(d, sub),
-                            ignore=shutil.ignore_patterns('__pycache__'))
         p = os.path.join(d, rel)
         s = open(p).read()
         if s.count(old) != 1:
             return None, 'pattern occurs %d times' % s.count(old)
         open(p, 'w').write(s.replace(old, new))
-        env = dict(os.environ, PYVC_REPO=d)
-        r = subprocess.run([sys.executable, '-m', 'pyvc.check', prop, '--no-evidence'] + list(extra),
-                           capture_output=True, text=True, env=env, cwd=os.path.dirname(os.path.dirname(os.path.abspath(__file__))))
-        return r.returncode, r.stdout + r.stderr
+        return run_check(prop, d, extra)
+    finally:
+        shutil.rmtree(d, ignore_errors=True)
+
+
+def run_patch(patch, props, extra=()):
+    d = scratch_copy()
+    out = {}
+    try:
+        r = subprocess.run(['patch', '-p1', '-s', '-i', os.path.abspath(patch)], cwd=d, capture_output=True, text=True)
+        if r.returncode != 0:
+            return {p: (None, 'patch failed: ' + r.stdout + r.stderr) for p in props}
+        for p in props:
+            out[p] = run_check(p, d, extra)
+        return out
     finally:
         shutil.rmtree(d, ignore_errors=True)
 
 
 if __name__ == '__main__':
-    rc, out = run_mutant(sys.argv[1], sys.argv[2], sys.argv[3], sys.argv[4], sys.argv[5:])
-    print(out)
-    print('exit', rc)
+    if sys.argv[1] == '--patch':
+        res = run_patch(sys.argv[2], sys.argv[3:])
+        for p, (rc, out) in res.items():
+            lines = [l for l in out.splitlines() if l.startswith(('VIOLATION', 'UNDECIDED', 'CHECKER', 'property', 'KNOWN'))]
+            print('\n'.join(l[:260] for l in lines[:12]))
+            print('%s exit %s' % (p, rc))
+    else:
+        rc, out = run_mutant(sys.argv[1], sys.argv[2], sys.argv[3], sys.argv[4], sys.argv[5:])
+        print(out)
+        print('exit', rc)
